@@ -223,7 +223,8 @@ class Writer(object):
             return ['', '.0', '.000'][self.p.pick(3, 'fraction-digits')]
         full = '%06d' % us
         trimmed = full.rstrip('0')
-        alts = [trimmed] + ([full] if len(trimmed) < 6 else [])
+        # (more than six digits are legal as long as they denote the same time: zero padding)
+        alts = [trimmed] + ([full] if len(trimmed) < 6 else []) + [full + '0', full + '000']
         return '.' + alts[self.p.pick(len(alts), 'fraction-digits')]
 
     def value(self, m, ver):
